@@ -26,6 +26,11 @@ func (r *yieldRewriter) rewriteRanges(block *ast.BlockStmt) {
 	astutil.Apply(block, nil, func(c *astutil.Cursor) bool {
 		switch n := c.Node().(type) {
 		case *ast.RangeStmt:
+			if c.Index() < 0 {
+				// not an element of a statement list (a labelled range): labels are
+				// only legal in plain closures of a generator, leave it native
+				return true
+			}
 			do := func(ctor string, arg ast.Expr) {
 				factory := r.SeqSelect(ctor)
 				iter := X.Call(factory, arg)
